@@ -594,8 +594,11 @@ def rule_impl_accessors(ctx):
     AO = {'last_accessed', 'access_order_q_node'} | {f_ for _a, f_ in sync_ts_fields(ctx) if ts_name_kind(f_) == 'ao'}
     n = 0
     for item in ('last_accessed', 'set_last_accessed', 'last_modified', 'set_last_modified'):
-        for tr in ('common::concurrent::AccessTime', 'unsync::AccessTime'):
-            for impl in prog.trait_impls.get(tr + '::' + item, []):
+        # every function of the crate with the accessor's name: impls of the accessor trait(s) -- one trait, or one per store -- and inherent methods
+        impls_ = sorted(n_ for n_, b_ in prog.bodies.items() if b_.kind != 'closure' and n_.split('::')[-1] == item and
+                        not n_.startswith(('common::concurrent::atomic_time::', '<common::concurrent::atomic_time::')))
+        for tr in ('accessor',):
+            for impl in impls_:
                 reach = prog.reachable_from([impl])
                 fields = set()
                 for x in reach:
